@@ -167,10 +167,10 @@ type PathEnum struct {
 	Name       func(v ssa.Value) string
 	MaxRevisit int
 	Budget     int
-	MaxDepth   int  // virtual inlining depth for small same-package helpers (default 2)
+	MaxDepth   int      // virtual inlining depth for small same-package helpers (default 2)
 	cur        *peState // state in which the naming hook is being called (see key)
-	NoInline   bool // disable virtual inlining
-	Inlined    int  // helper activations inlined (statistics)
+	NoInline   bool     // disable virtual inlining
+	Inlined    int      // helper activations inlined (statistics)
 	named      map[*ssa.Function]bool
 
 	Paths     []*Path
@@ -878,7 +878,6 @@ func Completions(p *Path, atoms []string) []map[string]bool {
 	}
 	return out
 }
-
 
 // lookupImplication applies `ok <=> value != nil` for lookups in the tables listed in NonNilTables. It returns true when
 // the new assumption contradicts what the path already established.
